@@ -1,7 +1,7 @@
 CONSTANTS
   StartLines <- SL_Six
   Cat <- Catalogue
-  HdrIdx = {1,6,11,14}
+  HdrIdx = {1,6,11,14,16,21}
   MaxH = 1
   Bodies <- Bodies4
   Peers <- PeersOne
